@@ -72,6 +72,27 @@ def run(F, chk):
             M1.ok(sample={'constructor_asserts': sorted(conds)})
         else:
             M1.violation(('constructor-asserts', new.path), 'the constructor no longer asserts low_mark + %d <= capacity (%s) and low_mark > 0 (%s)' % (cl, a1, a2), where=new.loc(None))
+        # what is asserted must be what is allocated and stored: the buffer is sized by the very parameter `capacity` and the
+        # low mark stored is the parameter `low_mark` (no adjustment between the asserts and the construction)
+        E0 = ExprBuilder(cfg)
+        sizes = []
+        for blk in new.calls():
+            p_ = blk.term.callee.path
+            if re.search(r'(vec::from_elem|Vec::<T>::with_capacity|Vec::<T, A>::with_capacity_in|Vec::<T, A>::resize|vec::from_elem_in)$', p_):
+                for a in blk.term.args:
+                    if (a.ty or '') == 'usize':
+                        sizes.append((blk, E.operand(a), a))
+        params = {new.name_of(i): i for i in range(1, new.arg_count + 1)}
+        M1.sites += len(sizes)
+        if not sizes:
+            M1.violation(('anchor-lost', 'buffer allocation in new'), 'cannot find the buffer allocation in LowMarkBufReader::new')
+        for (blk, e, a) in sizes:
+            direct = a.place is not None and cfg.origin_of_operand(a) is not None and cfg.origin_of_operand(a).is_local and cfg.origin_of_operand(a).l == params.get('capacity')
+            if direct or e == ('place', 'capacity') and len(new.locals_named('capacity')) == 1:
+                M1.ok(sample={'buffer_sized_by': 'the asserted parameter `capacity`'})
+            else:
+                M1.violation(('allocated-size-not-asserted', new.path), 'LowMarkBufReader::new allocates the buffer with %s at %s, which is not the parameter `capacity` that the asserts check: '
+                             'the relation low_mark + %d <= buffer length is no longer guaranteed' % (show(e)[:60], new.loc(blk.term.sp), cl), where=new.loc(blk.term.sp))
     fb = [b for b in F.order if b.path.startswith('<' + RD) and b.path.endswith('BufRead>::fill_buf')]
     cs = [b for b in F.order if b.path.startswith('<' + RD) and b.path.endswith('BufRead>::consume')]
     rd = [b for b in F.order if b.path.startswith('<' + RD) and b.path.endswith('io::Read>::read')]
